@@ -144,7 +144,7 @@ def _replay_chunk(arg):
     import sys
 
     sys.path.insert(0, os.environ.get("VERIF_REPO", "/repo"))
-    from lib.guard import limits, time_limit
+    from lib.guard import HardTimeout, limits, time_limit
 
     limits()
     recs, dialect, normalize, salt = arg
@@ -159,7 +159,7 @@ def _replay_chunk(arg):
         try:
             with time_limit(10):
                 answers, fresh_last = run_history(h, dialect, normalize, salt)
-        except Exception as e:
+        except (Exception, HardTimeout) as e:
             errs.append({"h": h, "err": f"{type(e).__name__}: {e}"})
             continue
         got = answers[-1]
